@@ -105,6 +105,13 @@ def decompile_exps(routine_infos, routine_ops, named, deep=True):
     return d.convert()
 
 
+def decompiler_exps(routine_infos, routine_ops, named):
+    """the decompiler object itself (on a deep copy of the ops), for callers that use it more than once"""
+    from explorerscript.ssb_converting.ssb_decompiler import ExplorerScriptSsbDecompiler
+
+    return ExplorerScriptSsbDecompiler(routine_infos, copy.deepcopy(routine_ops), coroutines(named), PPL, dm_constants())
+
+
 def decompile_ssbs(routine_infos, routine_ops, named, deep=True):
     from explorerscript.ssb_script.ssb_converting.ssb_decompiler import SsbScriptSsbDecompiler
 
